@@ -1192,9 +1192,14 @@ class CodeGenerator(StructuredCodeGenerator):
         sym_table = self.sym_kind_table.per_phase_table.get(
                 self.current_function, {})
 
+        # Release every variable local to the phase. A variable that was
+        # released after its last use is disassociated by now, and releasing
+        # it again does nothing. The others are the ones that were never
+        # used, and the ones whose point of last use was not reached: the
+        # step failed, the phase was switched, or the last use sits in a
+        # conditional block that was not entered.
         for identifier, sym_kind in sorted(sym_table.items()):
-            if (identifier, self.current_function) not in self.last_used_stmt_table:
-                self.emit_variable_deinit(identifier, sym_kind)
+            self.emit_variable_deinit(identifier, sym_kind)
 
         # }}}
 
